@@ -28,7 +28,8 @@ PY_TIES = [
 C_TIES = ["BPT.TieC." + n for n in (
     "c_min_capacity c_default_capacity c_header_bits c_ctor_rejects_eq c_leaf_split_mid_eq c_branch_split_mid_eq c_leaf_is_full_eq c_branch_is_full_eq "
     "c_leaf_split_counts_eq c_branch_split_counts_eq c_refcount_sites_eq c_stamp_increments_eq c_iter_fail_fast_eq c_routing_eq c_alloc_via_type_slots_eq "
-    "c_iter_next_src_eq c_src_BPlusTree_iter_eq c_src_BPlusTree_keys_eq c_src_BPlusTree_items_eq c_src_BPlusTreeIterator_dealloc_eq").split()]
+    "c_iter_next_src_eq c_src_BPlusTree_iter_eq c_src_BPlusTree_keys_eq c_src_BPlusTree_items_eq c_src_BPlusTreeIterator_dealloc_eq "
+    "c_src_node_find_position_eq c_src_fast_compare_lt_eq c_src_fast_compare_eq_eq").split()]
 
 # suites: name -> dict(kind, args per tier)
 #   kind "rust": bpt-harness gen <suite> ...
@@ -354,6 +355,7 @@ PROPS = {
             "BPT.C.wpopitem_spec", "BPT.C.wcopy_spec", "BPT.C.wclear_spec", "BPT.C.firstItem_spec",
             "BPT.C.insertRec_spec", "BPT.C.deleteRec_spec", "BPT.C.findRec_spec", "BPT.C.setitem_spec", "BPT.C.delitem_spec",
             "BPT.C.getitem_spec", "BPT.C.contains_spec", "BPT.C.len_spec", "BPT.C.cinv_new", "BPT.C.routePos_eq",
+            "BPT.Props.C12.binary_search_is_lower_bound", "BPT.Props.C12.int_fast_path_is_order",
         ],
         "ties": C_TIES,
         "suites": [
@@ -361,7 +363,7 @@ PROPS = {
             {"kind": "c", "suite": "c-exh", "quick": {"cases": 240, "len": 3}, "thorough": {"cases": 2600, "len": 4}},
         ],
         "nontrivial": "a case is non-trivial when the tree grew beyond a single leaf and at least one deletion succeeded; every case picks one of three ways to drive the extension (the type, a trivial Python subclass, the package wrapper) and one of four key representations (exact int, exact str, user-defined class with rich comparison, ints beyond C long); iterators are created, advanced, interleaved with mutations and advanced again; c-exh enumerates every set/del history of the given depth over 3 keys in the middle of a multi-leaf tree; the full structural dump (incl. emptied leaves) is compared with the model; distinct = distinct op-line sequences",
-        "trusted_extra": ["the three comparison fast paths (exact int, exact str, rich compare) and PyArg parsing are glue covered by the correspondence run only"],
+        "trusted_extra": ["CPython itself: PyLong_AsLong / PyUnicode_Compare / PyObject_RichCompareBool are assumed to implement the key type's total order (the model's `ord`); the int fast path and the binary search built on them are modelled (BPT/C/Search.lean) and pinned by source-text ties; the exact-str path, PyArg parsing and error propagation from a raising __lt__ are covered by the correspondence run only"],
     },
     "C13": {
         "title": "C extension is memory-safe and balances reference counts",
